@@ -75,7 +75,7 @@ func loadProgram(tier string) (*Engine, []*HarnessDecl, error) {
 		return nil, nil, fmt.Errorf("%d package load errors (does /repo build with the harness overlay?)", nerr)
 	}
 	prog, _ := ssautil.AllPackages(pkgs, ssa.InstantiateGenerics)
-	e := &Engine{prog: prog, pkgs: map[string]*ssa.Package{}, fnInfo: map[*ssa.Function]*FnInfo{}, armCache: map[*ssa.BasicBlock]bool{}}
+	e := &Engine{prog: prog, pkgs: map[string]*ssa.Package{}, fnInfo: map[*ssa.Function]*FnInfo{}, armCache: map[*ssa.BasicBlock]bool{}, lateCache: map[*ssa.Store]bool{}}
 	for _, p := range prog.AllPackages() {
 		e.pkgs[p.Pkg.Path()] = p
 	}
